@@ -1,3 +1,4 @@
+import XdsVerif.Model.Reg
 import XdsVerif.Driver.Util
 import XdsVerif.Model.Conc
 import XdsVerif.Generated.Facts
@@ -72,7 +73,19 @@ def checkHandlersOrder (j : Json) : Except String Verdict := do
                           else some s!"C07.policy_before_data: the last content the handler applied is '{(a.drop 11).toString}', older than what lookups are served ({n}#2): the replay of a registration ran after a newer update: {ev}"
               | none => some s!"C07: the handler never completed: {ev}"
           | none => some s!"C07.policy_before_data: a handler whose registration overlapped the update never saw {n}#2 although it is registered and the lookup exposes that content: {ev}"
-    return { nontrivial := true, mismatch := none, specfail := sf }
+    -- trace validation against `Model/Reg.lean` with the registration shape read from the source: update 1, the
+    -- registration of handler 7 (its replay parked by the script), update 2
+    let lastApplied := ((ev.filter (fun e => e.startsWith "H2 applied ")).getLast?).map (fun a => (a.drop 11).toString)
+    let mm : Option String :=
+      match Reg.run Generated.regShape Reg.init [.update 1, .regBegin 7, .update 2] with
+      | none => some "trace validation: a registration in one lock section is not what the source does any more (registration shape not recognised)"
+      | some ms =>
+        let want := (ms.applied 7).map (fun v => s!"{n}#{v}")
+        if want != lastApplied then some s!"registration racing an update: model leaves the handler at {want}, impl at {lastApplied}: {ev}"
+        else match idx s!"H2 applied {n}#1", idx s!"H2 saw {n}#2" with
+          | some a, some b => if a < b then none else some s!"registration racing an update: the update ran inside the registration (model: it waits for the manager lock): {ev}"
+          | _, _ => some s!"registration racing an update: expected events missing: {ev}"
+    return { nontrivial := true, mismatch := mm, specfail := sf }
   let sf : Option String :=
     match ev.findIdx? (fun e => e.startsWith "get val:") with
     | none => some s!"C07: the lookup of the delivered resource did not return it: {ev}"
